@@ -50,11 +50,10 @@ def renderStore (s : Store) : String :=
   let items := s.foldl (fun acc (k, m) => insertSorted (k, renderNode (.macroLit m.params m.body)) acc) []
   ",".intercalate (items.map fun (k, v) => hexS k ++ "=" ++ v)
 
-/-- error wording is never compared: the message of `MacroErrorf("macro should return Quote. got=%T (%+v)")`
-is cut after its fixed prefix -/
+/-- error wording is never compared: the message of every `error("…")` node with one string (what
+`MacroErrorf` builds) is blanked, on both sides and in the specification's tree -/
 partial def canon : Node → Node
-  | .builtin "ERROR" [.str s] =>
-    if (toBytes notQuoteMsg).isPrefixOf s then .builtin "ERROR" [.str (toBytes notQuoteMsg)] else .builtin "ERROR" [.str s]
+  | .builtin "ERROR" [.str _] => .builtin "ERROR" [.str []]
   | .pre op r => .pre op (canon r)
   | .inf op l r => .inf op (canon l) (canon r)
   | .stmts l => .stmts (l.map canon)
@@ -217,8 +216,9 @@ def hasAdjacentStatements (n : Node) : Bool :=
     | _ => false) n
 
 /-- "unquote-of-non-parameter" (outside the property's quantifier): some stored template unquotes something
-that is not one of its parameters; the value is evaluated in the bare macro state and anything but an
-integer, a boolean or a quote becomes a Go nil node, which the printer dereferences -/
+that is not one of its parameters; the value is evaluated in the macro-body state and converted back to
+syntax — a negative integer becomes a literal node with a negative value, which prints as `-1` and reads
+back as the prefix expression -(1) -/
 def nonParamUnquote (s : Store) : Bool :=
   s.any fun (_, m) => match m.body with
     | .stmts l => !(l.all (paramOnly m.params))
@@ -298,7 +298,7 @@ def runCase (inp obs : String) : CaseResult :=
         match parseAst r.a with
         | none => return CaseResult.badLine
         | some prog =>
-          let (store', dRes, xRes) := step Macro.defaultFuel store prog
+          let (store', dRes, xRes) := step Macro.defaultLimits store prog
           store := store'
           let m : StepOut := { d := renderX dRes, n := toString store'.length, x := renderX xRes, ms := renderStore store' }
           model := model ++ [s!"d={m.d};n={m.n};x={m.x};ms={m.ms}"]
@@ -313,7 +313,7 @@ def runCase (inp obs : String) : CaseResult :=
           -- the statement
           let (sstore', sprog) := specDefine sstore prog
           sstore := sstore'
-          let spec := if wellFormed then (specExpand sstore' sprog).map renderNode else none
+          let spec := if wellFormed then (specExpand sstore' sprog).map fun n => renderNode (canon n) else none
           if wellFormed && spec.isNone then tags := tags ++ ["outside-quantifier"]
           let s1 (x : String) : Bool := match spec with | some e => x == e | none => true
           let s3 (ms : String) : Bool := r.sm && (!wellFormed || ms == renderStore sstore')
